@@ -4,7 +4,7 @@ From Coq Require Import ZArith Bool Ascii String.
 From Coq Require Import List.
 Import ListNotations.
 From Verif Require Import Fmt.TextModel Fmt.TextProofs Fmt.X86FmtModel Fmt.X86FmtProofs Fmt.X86RegTableCheck.
-From Verif Require Import Fmt.X86InstModel Fmt.X86InstProofs Fmt.A64FmtModel Fmt.A64FmtProofs Fmt.A64InstProofs Fmt.LogLine Fmt.LogLineX86 Fmt.LogLineA64 Fmt.LabelVirt Fmt.DataNode Fmt.NodeLine Fmt.InstNamesCheck Fmt.Corollaries Fmt.NameDecode Fmt.X86Explain Fmt.RegList Fmt.RegListAll Fmt.VirtNames Fmt.FuncValue Fmt.LogOptions Fmt.Directives Fmt.A64Virt Fmt.SourceTablesCheck Fmt.FuncLine Fmt.X86VirtPhys Fmt.Transcript Fmt.A64VirtRead Fmt.A32Regs Fmt.LogInsts Fmt.Strict Fmt.EnumNames Fmt.StrictOps Fmt.EnvCheck Fmt.LogIndent Fmt.DataBytes Fmt.DomainCheck Fmt.FuncCheck Fmt.PlainLog Fmt.StrictSmall Fmt.NodeRead.
+From Verif Require Import Fmt.X86InstModel Fmt.X86InstProofs Fmt.A64FmtModel Fmt.A64FmtProofs Fmt.A64InstProofs Fmt.LogLine Fmt.LogLineX86 Fmt.LogLineA64 Fmt.LabelVirt Fmt.DataNode Fmt.NodeLine Fmt.InstNamesCheck Fmt.Corollaries Fmt.NameDecode Fmt.X86Explain Fmt.RegList Fmt.RegListAll Fmt.VirtNames Fmt.FuncValue Fmt.LogOptions Fmt.Directives Fmt.A64Virt Fmt.SourceTablesCheck Fmt.FuncLine Fmt.X86VirtPhys Fmt.Transcript Fmt.A64VirtRead Fmt.A32Regs Fmt.LogInsts Fmt.Strict Fmt.EnumNames Fmt.StrictOps Fmt.EnvCheck Fmt.LogIndent Fmt.DataBytes Fmt.DomainCheck Fmt.FuncCheck Fmt.PlainLog Fmt.StrictSmall Fmt.NodeRead Fmt.Kernel.
 From VerifGen Require Import X86RegTables InstNames InstNameTables FmtSourceTables X86ExplainTables FmtEnumTables.
 Local Open Scope Z_scope.
 
@@ -683,3 +683,49 @@ Print Assumptions C20_small_readers_exact.
 Theorem C20_node_body_roundtrip : forall f n, node_ok n -> parse_node_body (node_body f n) = Some (canon_node n).
 Proof. exact node_body_roundtrip. Qed.
 Print Assumptions C20_node_body_roundtrip.
+
+(* round 7. canon_inst / canon_op are EXACTLY the kernel of printing: two well-formed instructions (operands) print the same text under the same flags IF AND
+   ONLY IF their canonical forms are equal ("only if": C20_x86_inst_text_injective; "if": the frame condition C20_print_canon_invariant) *)
+Theorem C20_x86_inst_print_kernel : forall f i1 i2, inst_ok i1 -> inst_ok i2 -> (fmt_inst f i1 = fmt_inst f i2 <-> canon_inst i1 = canon_inst i2).
+Proof. exact x86_inst_print_kernel. Qed.
+Print Assumptions C20_x86_inst_print_kernel.
+
+Theorem C20_x86_operand_print_kernel : forall f o1 o2, op_ok o1 -> op_ok o2 -> (fmt_operand f o1 = fmt_operand f o2 <-> canon_op o1 = canon_op o2).
+Proof. exact x86_operand_print_kernel. Qed.
+Print Assumptions C20_x86_operand_print_kernel.
+
+Theorem C20_a64_inst_print_kernel : forall f i1 i2, a64_inst_ok i1 -> a64_inst_ok i2 ->
+  (a64_fmt_inst true f i1 = a64_fmt_inst true f i2 <-> a64_canon_inst i1 = a64_canon_inst i2).
+Proof. exact a64_inst_print_kernel. Qed.
+Print Assumptions C20_a64_inst_print_kernel.
+
+(* the canonical form is a fixed point of print-then-read *)
+Theorem C20_canon_fixed_point :
+  (forall f i, inst_ok i -> parse_inst (fmt_inst f (canon_inst i)) = Some (canon_inst i)) /\
+  (forall f i, a64_inst_ok i -> parse_a64_inst (a64_fmt_inst true f (a64_canon_inst i)) = Some (a64_canon_inst i)).
+Proof. exact (conj x86_canon_fixed_point a64_canon_fixed_point). Qed.
+Print Assumptions C20_canon_fixed_point.
+
+(* sequence level. Completeness of C20_x86_log_injective: emission sequences with equal canonical instructions, bytes, displacement / immediate sizes and
+   comments have the SAME log (the log shows nothing else) - no well-formedness needed *)
+Theorem C20_x86_log_complete : forall f pad1 pad2 (es1 es2 : list (emitted x86inst)),
+  map (fun e => canon_inst (m_inst _ e)) es1 = map (fun e => canon_inst (m_inst _ e)) es2 ->
+  map (fun e => (m_bytes _ e, m_rel _ e, m_imm _ e, m_comment _ e)) es1 = map (fun e => (m_bytes _ e, m_rel _ e, m_imm _ e, m_comment _ e)) es2 ->
+  log_of pad1 pad2 (map (to_emission _ (fmt_inst f)) es1) = log_of pad1 pad2 (map (to_emission _ (fmt_inst f)) es2).
+Proof. exact x86_log_complete. Qed.
+Print Assumptions C20_x86_log_complete.
+
+(* equal logs come from equal programs: AArch64 (round 6 had x86), and x86 logs without machine code *)
+Theorem C20_a64_log_injective : forall f pad1 pad2 es1 es2, Forall (emitted_ok _ a64_inst_ok) es1 -> Forall (emitted_ok _ a64_inst_ok) es2 ->
+  log_of pad1 pad2 (map (to_emission _ (a64_fmt_inst true f)) es1) = log_of pad1 pad2 (map (to_emission _ (a64_fmt_inst true f)) es2) ->
+  map (fun e => a64_canon_inst (m_inst _ e)) es1 = map (fun e => a64_canon_inst (m_inst _ e)) es2 /\ map (m_comment _) es1 = map (m_comment _) es2.
+Proof. exact a64_log_injective. Qed.
+Print Assumptions C20_a64_log_injective.
+
+Theorem C20_x86_plain_log_injective : forall f pad1 pad2 (es1 es2 : list (x86inst * text)),
+  Forall (fun e => inst_ok (fst e) /\ Forall nonl (snd e)) es1 -> Forall (fun e => inst_ok (fst e) /\ Forall nonl (snd e)) es2 ->
+  plain_log_of pad1 pad2 (map (fun e => {| q_text := fmt_inst f (fst e); q_comment := snd e |}) es1) =
+  plain_log_of pad1 pad2 (map (fun e => {| q_text := fmt_inst f (fst e); q_comment := snd e |}) es2) ->
+  map (fun e => canon_inst (fst e)) es1 = map (fun e => canon_inst (fst e)) es2 /\ map (fun e => opt_comment (snd e)) es1 = map (fun e => opt_comment (snd e)) es2.
+Proof. exact x86_plain_log_kernel. Qed.
+Print Assumptions C20_x86_plain_log_injective.
